@@ -834,9 +834,28 @@ class ExternalTensor(TensorBase, _protocols.TensorProtocol):  # pylint: disable=
         # Uses a single stat call (try/except) to avoid a TOCTOU between
         # os.path.exists() and os.stat().
         try:
-            file_stat = os.stat(path_real)
+            # The object the open() that follows reaches: the same string, resolved by the
+            # kernel the same way. If this fails, that open fails as well.
+            file_stat = os.stat(path)
         except OSError:
             return  # File doesn't exist yet — skip the checks on the file itself
+        # os.path.realpath() does not fail on an entry it cannot examine: when os.lstat()
+        # raises (e.g. ENAMETOOLONG because the resolved prefix is PATH_MAX bytes or longer,
+        # or EACCES), the entry is taken to be a non-link, so a symlink there is not followed
+        # and path_real / base_real are not where the kernel goes. Cross-check both against
+        # the kernel: the resolved strings must name the very objects the original strings do.
+        try:
+            resolved_ok = os.path.samestat(file_stat, os.stat(path_real)) and os.path.samestat(
+                os.stat(os.fspath(self._base_dir)), os.stat(base_real)
+            )
+        except OSError:
+            resolved_ok = False
+        if not resolved_ok:
+            raise ValueError(
+                f"External data path '{path}' could not be verified: it resolves to "
+                f"'{path_real}' under '{base_real}' according to os.path.realpath, but the "
+                "file system does not confirm this (path too long or not accessible)."
+            )
         nlink = file_stat.st_nlink
         if nlink > 1:
             raise ValueError(
